@@ -54,7 +54,7 @@ func loadSink(c *report.Ctx) *sinkInfo {
 func (s *sinkInfo) idOK(b *ssa.BasicBlock) bool {
 	ctxNonNil := s.facts.Holds(b, func(f an.Fact) bool { return an.CmpNil(f, false, loadOf(srvT, "invokeCtx")) })
 	idEq := s.facts.Holds(b, func(f an.Fact) bool {
-		return an.CmpEq(f, true, func(v ssa.Value) bool { p, ok := v.(*ssa.Parameter); return ok && p.Name() == "invokeID" }, loadOf("L/interop.Token", "InvokeID"))
+		return an.CmpEq(f, true, func(v ssa.Value) bool { return an.IsParamNamed(v, "invokeID") }, loadOf("L/interop.Token", "InvokeID"))
 	})
 	return ctxNonNil && idEq
 }
